@@ -51,6 +51,7 @@ type FnCtx struct {
 	compRange map[string][2]string
 	specRecursive map[string]bool
 	named map[string]string
+	declConst map[string]bool
 	frameMode bool
 	unfoldDepth int
 	modCache map[*ssa.Function]modResult
@@ -62,6 +63,15 @@ func newFnCtx(w *World, fn *ssa.Function, spec *FuncSpec) *FnCtx {
 	if fn.Pkg != nil {
 		fc.pkg = fn.Pkg.Pkg
 	}
+	for name, es := range w.specs.Ghost {
+		sortS := map[string]string{"bool": SBool, "int": SInt, "ptr": SPtr}[es]
+		if sortS == "" {
+			sortS = SInt
+		}
+		fc.comps[name] = arraySort(SPtr, sortS)
+		fc.compOrder = append(fc.compOrder, name)
+	}
+	sort.Strings(fc.compOrder)
 	fc.reset()
 	return fc
 }
@@ -75,6 +85,7 @@ func (fc *FnCtx) reset() {
 	fc.specDeclared = map[string]bool{}
 	fc.specRecursive = map[string]bool{}
 	fc.named = map[string]string{}
+	fc.declConst = map[string]bool{}
 	fc.tpSorts = map[string]bool{}
 	fc.unsupported = nil
 	fc.oblNames = map[string]int{}
@@ -87,6 +98,7 @@ func (fc *FnCtx) fresh(prefix, sort string, t types.Type) Term {
 	fc.n++
 	name := fmt.Sprintf("%s!%d", prefix, fc.n)
 	fc.emit(fmt.Sprintf("(declare-const %s %s)", name, sort))
+	fc.declConst[name] = true
 	return mk(name, sort, t)
 }
 
@@ -105,7 +117,7 @@ func (fc *FnCtx) define(prefix string, t Term) Term {
 
 // nameTerm binds a compound term to a declared constant (usable inside quantifier patterns).
 func (fc *FnCtx) nameTerm(prefix string, t Term) Term {
-	if !strings.ContainsAny(t.S, "( ") {
+	if fc.declConst[t.S] {
 		return t
 	}
 	key := "named:" + t.S
